@@ -38,9 +38,15 @@ func (e *AccessorExpr) Evaluate(engine *Engine, input interface{}, args []*State
 		}
 		returnType := e.getReturnType(accessor, reflect.New(t).Interface())
 		if returnType == nil {
-			return nil, fmt.Errorf(
-				`%s does not have a method or property named "%s"`,
-				t.Name(), accessor)
+			if t.Kind() != reflect.Interface {
+				return nil, fmt.Errorf(
+					`%s does not have a method or property named "%s"`,
+					t.Name(), accessor)
+			}
+
+			// The elements (like those of gedcom.Nodes) can be of different
+			// types so the accessor can only be resolved on each element.
+			returnType = reflect.TypeOf((*interface{})(nil)).Elem()
 		}
 
 		results := reflect.MakeSlice(reflect.SliceOf(returnType), 0, 0)
@@ -51,7 +57,12 @@ func (e *AccessorExpr) Evaluate(engine *Engine, input interface{}, args []*State
 				return nil, err
 			}
 
-			results = reflect.Append(results, reflect.ValueOf(result))
+			value := reflect.ValueOf(result)
+			if !value.IsValid() {
+				value = reflect.Zero(returnType)
+			}
+
+			results = reflect.Append(results, value)
 		}
 
 		return results.Interface(), nil
